@@ -125,6 +125,21 @@ example : forward exModel [1, 0, 0] = 628000 ∧ backward exModel [1, 0, 0] = 62
 example : (viterbi exModel [1, 0, 0]).2 = 128000 := by decide
 example : backwardLit exModel [1] = 70 ∧ backwardLit exModel [1, 0] = 7600 ∧ backwardLit exModel [1, 0, 0] = 628000 := by decide
 
+/-- hypothesis of `viterbi_code_max_of_no_end` is satisfiable: a model without end vector -/
+example : exModel.noEnd.fin = fun _ => 1 := rfl
+example : (viterbi exModel.noEnd [1, 0, 0]).1 = [0, 1, 1] ∧ viterbiVal exModel.noEnd [1, 0, 0] = (viterbi exModel.noEnd [1, 0, 0]).2 := by
+  decide
+
+/-- hypothesis of `impossible_zero` is satisfiable: symbol 1 is never emitted -/
+def impModel : Hmm :=
+  { S := 2, init := fun _ => 1, trans := fun _ _ => 1, emit := fun _ o => if o = 0 then 2 else 0, fin := fun _ => 1 }
+example : ∀ π ∈ paths impModel.S [0, 1].length, joint impModel [0, 1] π = 0 := by decide
+example : forward impModel [0, 1] = 0 ∧ (viterbi impModel [0, 1]).2 = 0 ∧ forward impModel [0, 0] = 16 := by decide
+
+/-- the zero-aware comparator differs from the plain arg-max only in which zero-weight predecessor it names -/
+example : selZ (fun k => [0, 3, 0].getD k 0) (fun k => [5, 0, 7].getD k 0) 3 = 1 ∧
+          selLast (fun k => [0, 3, 0].getD k 0) (fun k => [5, 0, 7].getD k 0) 3 = 2 := by decide
+
 /-- one state, everything certain except the end probability 1/10 (DESIGN §10): the Rust `viterbi` (mirror
 `viterbi`) reports 10⁴/10⁴ = 1 for two observations although the only path has joint probability
 10⁴/10⁵ = 0.1 = the likelihood: the reported value is not the joint probability of the returned path and
